@@ -102,12 +102,21 @@ CHECKS = {
          "afterwards must equal the model's tree (types, modes, link targets), and it must equal the generator's expectation: "
          "every file's size and CRC-16, mtime (when recorded), mode (recorded bits or 0600), every safe link's target, every "
          "directory's recorded mode and mtime although its children were written after it; unsafe links and the directories "
-         "receiving them are left open as in the statement; nothing else may exist.",
+         "receiving them are left open as in the statement; nothing else may exist. For half of the extractions the expected tree is "
+         "computed by TreeModel.tla from the archive's intended contents, the options, wildcard arguments (Glob.tla), files present "
+         "beforehand and the answers typed at the overwrite prompt (y/n/a/s, empty and unrecognised lines, upper case): a file is "
+         "replaced only under the policy in force, only matching members are touched, missing parents appear with 0755. The "
+         "library's own extraction (lha_reader_extract with header paths) is run under each of its three directory policies and "
+         "the resulting tree compared with TreeModel (PLAIN: time stamps of directories that receive children excepted). The "
+         "print command's stdout (banner + exactly the selected members' bytes) is compared with Cli.tla.",
     design_ref="DESIGN.md section 5, C06",
     note="Owner ids, link time stamps and stamp-0 entries are outside the statement. umask 022, TZ=UTC. The expectation comes from the "
-         "generator (a declarative description of the tree), the model tree from replaying the observed calls.",
+         "generator (a declarative description of the tree) or from TreeModel.tla, the model tree from replaying the observed calls. "
+         "A directory that already exists keeps its mode and time (extract_directory treats EEXIST as success): modelled as such, "
+         "the statement's guarantee is read as being about directories the extraction creates. End of input at the prompt is not modelled.",
     technique="trace validation of strace-observed extraction against the FsModel/Extract TLA+ specs plus comparison of the final tree "
-              "with the generator's model tree, decided by TLC"),
+              "with the model tree (generator's description / TreeModel.tla: wildcards, pre-existing files, prompt answers, three library "
+              "policies), decided by TLC; print output against Cli.tla"),
  "C10": dict(
     category="model_checking",
     text="Extract.tla models `lha x` entry by entry over FsModel.tla (path resolution with '.', '..', relative/absolute symbolic links, "
